@@ -1,6 +1,6 @@
 (* Entry points used by the extracted OCaml driver (and by generated cases.v
    files evaluated with vm_compute). *)
-From SV Require Export Checkers.AllocChk.
+From SV Require Export Checkers.AllocChk Checkers.ConcChk.
 
 (* sorting of uid lists (canonical order where the real order is unspecified) *)
 Fixpoint ins_sorted (x : N) (l : list N) : list N :=
